@@ -445,7 +445,7 @@ MUTANTS += [
     M("c17-defaultnewnick-keeps-underscore", ["C17"], CONN, "	default:\n		c = '_'\n	}\n	return old[:len(old)-1] + string(c)", "	default:\n		c = '_'\n	}\n	if c > '}' {\n		return old\n	}\n	return old[:len(old)-1] + string(c)", expect="control"),
     M("c17-defaultnewnick-digit-mod-9", ["C17"], CONN, "		c = '0' + (((c - '0') + 1) % 10)", "		c = '0' + (((c - '0') + 1) % 9)", note="'8' maps to '0'... and '9' to '1': still different; '8'->'0' fine", expect="control"),
     M("c17-433-answers-current-nick", ["C17"], H, "	neu := conn.cfg.NewNick(line.Args[1])", "	neu := conn.cfg.NewNick(me.Nick)", note="derives the new nick from the current one instead of the refused one"),
-    M("c17-stnick-ignores-me", ["C17"], SH, "	conn.st.ReNick(line.Nick, line.Args[0])", "	if line.Nick != conn.cfg.Me.Nick {\n		conn.st.ReNick(line.Nick, line.Args[0])\n	}", note="tracked client ignores its own confirmed nick change when cfg.Me is current"),
+    M("c17-stnick-ignores-me", ["C17"], SH, "	nk := conn.st.ReNick(line.Nick, line.Args[0])", "	nk := conn.cfg.Me\n	if line.Nick != conn.cfg.Me.Nick {\n		nk = conn.st.ReNick(line.Nick, line.Args[0])\n	}", note="tracked client ignores its own confirmed nick change when cfg.Me is current"),
     M("c17-revert-D9", ["C17"], H, "", "", expect="skip"),
     # ---- C13 / C05
     M("c13-part-ignores-nick", ["C13"], SH, "	conn.st.Dissociate(line.Args[0], line.Nick)", "	conn.st.Dissociate(line.Args[0], conn.Me().Nick)"),
@@ -464,7 +464,7 @@ MUTANTS += [
 				"from (non-me) nick %s", line.Args[0], line.Nick)
 			return
 		}""", note="a tracked user joining an untracked channel creates it: a channel is tracked without the client on it (was mislabelled a control while its pattern was stale)"),
-    M("c13-stnick-swapped", ["C13"], SH, "	conn.st.ReNick(line.Nick, line.Args[0])", "	conn.st.ReNick(line.Args[0], line.Nick)"),
+    M("c13-stnick-swapped", ["C13"], SH, "	nk := conn.st.ReNick(line.Nick, line.Args[0])", "	nk := conn.st.ReNick(line.Args[0], line.Nick)"),
     M("c13-324-args0", ["C13"], SH, "		conn.st.ChannelModes(line.Args[1], line.Args[2], line.Args[3:]...)", "		conn.st.ChannelModes(line.Args[1], line.Args[2], line.Args[4:]...)"),
     M("c13-topic-on-332-only", ["C13"], SH, "		conn.st.Topic(line.Args[0], line.Args[1])", "		conn.st.Topic(line.Args[0], line.Args[len(line.Args)-1][:0]+line.Args[1])", expect="control"),
     M("c13-352-name-with-hops", ["C13"], SH, "	conn.st.NickInfo(nk.Nick, line.Args[2], line.Args[3], a[1])", "	conn.st.NickInfo(nk.Nick, line.Args[2], line.Args[3], a[0]+\" \"+a[1])"),
